@@ -1,4 +1,6 @@
 """Shared Gen -> run -> Obs pass for updown list / topranking (C08, C09, C10)."""
+import json
+
 from . import kernel
 
 
@@ -15,6 +17,16 @@ def collect(ctx, rand_n):
     vecs = small + big
     vecs += kernel.rand_vectors(ctx, "updown", rand_n)
     vecs.append(wide_vector(ctx))
+    extra = []
+    for k, v in enumerate(vecs):
+        if v["id"].startswith("randud-") and k % 5 == 0 and len(v["ref"]) > 6:
+            v2 = json.loads(json.dumps(v))
+            v2["id"] = v["id"] + "-iupacref"
+            for j, sym in ((2, "-"), (len(v2["ref"]) // 2, "N"), (len(v2["ref"]) - 2, "R")):
+                v2["ref"][j] = sym
+            v2["wide"] = True          # judged for the agreement of the four input combinations only (C08 is stated for A/C/G/T references)
+            extra.append(v2)
+    vecs += extra
     return kernel.run_vectors(ctx, "updown", vecs, timeout=6000)
 
 
